@@ -383,25 +383,33 @@ def relLoop (W : World) (v : Variant) (first : Nat) : Nat → List Nat → VStat
                     | .ok () => relLoop W v first fuel newQ st
                     | .error err2 => .error err2
 
+/-- policy applicable at the first entry of the range (verify.go:469-482) -/
+def initialPolicy (W : World) (first : Nat) : Except VE (Option Policy) :=
+  match W.log[first]? with
+  | none => .error .other
+  | some fe =>
+    match (if isUpdater fe && fe.ref == policyRef then some first else W.latestFor policyRef first) with
+    | none => .ok none
+    | some p => (match W.loadState p with | .ok P => .ok (some P) | .error x => .error x)
+
+/-- attestations applicable at the first entry of the range (verify.go:485-497) -/
+def initialAtt (W : World) (first : Nat) : Except VE (Option AttState) :=
+  match W.log[first]? with
+  | none => .error .other
+  | some fe =>
+    match (if isUpdater fe && fe.ref == attestationsRef then some first else W.latestFor attestationsRef first) with
+    | none => .ok none
+    | some a => (match W.attAt a with | some s => .ok (some s) | none => .error .other)
+
 /-- `VerifyRelativeForRef(first, last, ref)` -/
-def verifyRelative (W : World) (v : Variant) (first last : Nat) (ref : String) : Except VE Unit := do
-  -- policy applicable at first
-  let pol ← match W.log[first]? with
-    | none => (.error .other : Except VE (Option Policy))
-    | some fe =>
-      let pe := if isUpdater fe && fe.ref == policyRef then some first else W.latestFor policyRef first
-      match pe with
-      | none => pure none
-      | some p => do let P ← W.loadState p; pure (some P)
-  let att ← match W.log[first]? with
-    | none => (.error .other : Except VE (Option AttState))
-    | some fe =>
-      let ae := if isUpdater fe && fe.ref == attestationsRef then some first else W.latestFor attestationsRef first
-      match ae with
-      | none => pure none
-      | some a => (match W.attAt a with | some s => pure (some s) | none => .error .other)
-  let q := W.range first last ref
-  W.relLoop v first (2 * q.length + 2) q { policy := pol, att := att }
+def verifyRelative (W : World) (v : Variant) (first last : Nat) (ref : String) : Except VE Unit :=
+  match W.initialPolicy first with
+  | .error x => .error x
+  | .ok pol =>
+    match W.initialAtt first with
+    | .error x => .error x
+    | .ok att =>
+      W.relLoop v first (2 * (W.range first last ref).length + 2) (W.range first last ref) { policy := pol, att := att }
 
 /-- result of the three exported modes: the tip (a commit index) and the verdict -/
 def latestEntryFor (W : World) (ref : String) : Option Nat := W.latestFor ref W.log.length
